@@ -6,4 +6,240 @@ import PgVerif.Spec.Wal
 namespace PgVerif.Proofs.Wal
 open PgVerif PgVerif.Model.Wal
 
+/-! ## Totality (C10): no slice expression or index of the WAL parsers can be out of range -/
+
+theorem afterImage_total (data : Bytes) (p15 : Bool) (pos : Nat) (h : pos + 5 ≤ data.length) :
+    ∃ r, afterImage data p15 pos = .ok r := by
+  unfold afterImage
+  rw [idx_ok data (pos + 4) (by omega)]
+  exact ⟨_, rfl⟩
+
+theorem imagePart_total (data : Bytes) (p15 : Bool) (ff pos dt : Nat) :
+    ∃ r, imagePart data p15 ff pos dt = .ok r := by
+  unfold imagePart
+  split
+  · split
+    · exact ⟨_, rfl⟩
+    · rename_i h
+      rw [uN_ok 2 data pos (by omega)]
+      obtain ⟨p, hp⟩ := afterImage_total data p15 pos (by omega)
+      simp only [ok_bind, hp, pure_eq_ok]
+      exact ⟨_, rfl⟩
+  · exact ⟨_, rfl⟩
+
+theorem relPart_total (data : Bytes) (ff pos : Nat) (last : Option RelFileNode) :
+    ∃ r, relPart data ff pos last = .ok r := by
+  unfold relPart
+  split
+  · split
+    · exact ⟨_, rfl⟩
+    · rename_i h
+      rw [uN_ok 4 data pos (by omega), uN_ok 4 data (pos + 4) (by omega), uN_ok 4 data (pos + 8) (by omega)]
+      exact ⟨_, rfl⟩
+  · exact ⟨_, rfl⟩
+
+theorem blockStep_total (data : Bytes) (p15 : Bool) (pos dt : Nat) (last : Option RelFileNode)
+    (h : pos + 4 ≤ data.length) : ∃ r, blockStep data p15 pos dt last = .ok r := by
+  unfold blockStep
+  rw [idx_ok data pos (by omega)]
+  simp only [ok_bind]
+  split
+  · exact ⟨_, rfl⟩
+  · rw [idx_ok data (pos + 1) (by omega), uN_ok 2 data (pos + 2) (by omega)]
+    simp only [ok_bind]
+    obtain ⟨ip, hip⟩ := imagePart_total data p15 (data[pos + 1]).toNat (pos + 4) (dt + rd 2 (data.drop (pos + 2)))
+    rw [hip]
+    simp only [ok_bind]
+    cases ip with
+    | none => exact ⟨_, rfl⟩
+    | some pd =>
+      obtain ⟨rp, hrp⟩ := relPart_total data (data[pos + 1]).toNat pd.1 last
+      simp only [hrp, ok_bind]
+      cases rp with
+      | none => exact ⟨_, rfl⟩
+      | some rp =>
+        simp only []
+        split
+        · exact ⟨_, rfl⟩
+        · rw [uN_ok 4 data rp.2 (by omega)]
+          exact ⟨_, rfl⟩
+
+theorem blockLoop_total (data : Bytes) (p15 : Bool) (fuel pos dt : Nat) (last : Option RelFileNode) :
+    ∃ r, blockLoop data p15 fuel pos dt last = .ok r := by
+  induction fuel generalizing pos dt last with
+  | zero => exact ⟨_, rfl⟩
+  | succ fuel ih =>
+    unfold blockLoop
+    split
+    · rename_i hc
+      obtain ⟨st, hst⟩ := blockStep_total data p15 pos dt last hc.1
+      simp only [hst, ok_bind]
+      cases st with
+      | none => exact ⟨_, rfl⟩
+      | some s =>
+        obtain ⟨rest, hr⟩ := ih s.pos s.dataTotal s.lastRel
+        simp only [hr, ok_bind]
+        exact ⟨_, rfl⟩
+    · exact ⟨_, rfl⟩
+
+theorem parseBlockRefsFor_total (data : Bytes) (magic : Nat) : ∃ r, parseBlockRefsFor data magic = .ok r :=
+  blockLoop_total _ _ _ _ _ _
+
+theorem parseXLogRecord_total (data : Bytes) (lsn magic : Nat) : ∃ r, parseXLogRecord data lsn magic = .ok r := by
+  unfold parseXLogRecord
+  split
+  · exact ⟨_, rfl⟩
+  · rename_i hl
+    rw [uN_ok 4 data 0 (by omega)]
+    simp only [ok_bind]
+    split
+    · exact ⟨_, rfl⟩
+    · rename_i ht
+      rw [uN_ok 4 data 4 (by omega), uN_ok 8 data 8 (by omega), idx_ok data 16 (by omega), idx_ok data 17 (by omega),
+        uN_ok 4 data 20 (by omega)]
+      simp only [ok_bind]
+      split
+      · rename_i hb
+        simp only [Bool.and_eq_true, decide_eq_true_eq] at hb
+        rw [slice_ok data 24 _ hb.2 (by omega)]
+        simp only [ok_bind]
+        obtain ⟨bl, hbl⟩ := parseBlockRefsFor_total ((data.take (rd 4 (data.drop 0))).drop 24) magic
+        simp only [hbl, ok_bind]
+        exact ⟨_, rfl⟩
+      · exact ⟨_, rfl⟩
+
+/-- a record is consumed with at least its 24 header bytes -/
+theorem parseXLogRecord_consumed (data : Bytes) (lsn magic : Nat) (r : Option Record × Nat)
+    (h : parseXLogRecord data lsn magic = .ok r) : r.2 = 0 ∨ 24 ≤ r.2 := by
+  unfold parseXLogRecord at h
+  split at h
+  · injection h with h; subst h; exact .inl rfl
+  · rename_i hl
+    rw [uN_ok 4 data 0 (by omega)] at h
+    simp only [ok_bind] at h
+    split at h
+    · injection h with h; subst h; exact .inl rfl
+    · rename_i ht
+      simp only [Bool.or_eq_true, decide_eq_true_eq, not_or] at ht
+      rw [uN_ok 4 data 4 (by omega), uN_ok 8 data 8 (by omega), idx_ok data 16 (by omega), idx_ok data 17 (by omega),
+        uN_ok 4 data 20 (by omega)] at h
+      simp only [ok_bind] at h
+      split at h
+      · rename_i hb
+        simp only [Bool.and_eq_true, decide_eq_true_eq] at hb
+        rw [slice_ok data 24 _ hb.2 (by omega)] at h
+        simp only [ok_bind] at h
+        obtain ⟨bl, hbl⟩ := parseBlockRefsFor_total ((data.take (rd 4 (data.drop 0))).drop 24) magic
+        simp only [hbl, ok_bind, pure_eq_ok] at h
+        injection h with h; subst h; right; simp only []; omega
+      · simp only [ok_bind, pure_eq_ok] at h
+        injection h with h; subst h; right; simp only []; omega
+
+theorem parsePageHeader_total (data : Bytes) (h : 24 ≤ data.length) : ∃ r, parsePageHeader data = .ok r := by
+  unfold parsePageHeader
+  rw [uN_ok 2 data 0 (by omega), uN_ok 2 data 2 (by omega), uN_ok 4 data 4 (by omega), uN_ok 8 data 8 (by omega),
+    uN_ok 4 data 16 (by omega)]
+  simp only [ok_bind]
+  split
+  · rename_i hc
+    simp only [Bool.and_eq_true, decide_eq_true_eq] at hc
+    rw [uN_ok 8 data 24 (by omega), uN_ok 4 data 32 (by omega), uN_ok 4 data 36 (by omega)]
+    exact ⟨_, rfl⟩
+  · exact ⟨_, rfl⟩
+
+theorem recordLoop_total (data : Bytes) (pa magic fuel pos : Nat) : ∃ r, recordLoop data pa magic fuel pos = .ok r := by
+  induction fuel generalizing pos with
+  | zero => exact ⟨_, rfl⟩
+  | succ fuel ih =>
+    unfold recordLoop
+    split
+    · rename_i hc
+      rw [sliceFrom_ok data pos (by omega)]
+      simp only [ok_bind]
+      split
+      · exact ⟨_, rfl⟩
+      · obtain ⟨rc, hrc⟩ := parseXLogRecord_total (data.drop pos) ((pa + pos) % 2 ^ 64) magic
+        simp only [hrc, ok_bind]
+        split
+        · exact ⟨_, rfl⟩
+        · obtain ⟨rest, hr⟩ := ih (align8 (pos + rc.2))
+          simp only [hr, ok_bind]
+          exact ⟨_, rfl⟩
+    · exact ⟨_, rfl⟩
+
+theorem parseWALPage_total (data : Bytes) : ∃ r, parseWALPage data = .ok r := by
+  unfold parseWALPage
+  split
+  · exact ⟨_, rfl⟩
+  · rename_i hl
+    obtain ⟨h, hh⟩ := parsePageHeader_total data (by omega)
+    simp only [hh, ok_bind]
+    split
+    · exact ⟨_, rfl⟩
+    · obtain ⟨rs, hrs⟩ := recordLoop_total data h.pageAddr h.magic data.length (startPos h)
+      simp only [hrs, ok_bind]
+      exact ⟨_, rfl⟩
+
+theorem pagesLoop_total (data : Bytes) (fuel off : Nat) : ∃ r, pagesLoop data fuel off = .ok r := by
+  induction fuel generalizing off with
+  | zero => exact ⟨_, rfl⟩
+  | succ fuel ih =>
+    unfold pagesLoop
+    split
+    · rename_i hc
+      rw [slice_ok data off (off + 8192) hc (by omega)]
+      simp only [ok_bind]
+      obtain ⟨r, hr⟩ := parseWALPage_total ((data.take (off + 8192)).drop off)
+      obtain ⟨rest, hrest⟩ := ih (off + 8192)
+      simp only [hr, hrest, ok_bind]
+      exact ⟨_, rfl⟩
+    · exact ⟨_, rfl⟩
+
+theorem parseWALFile_total (data : Bytes) : ∃ r, parseWALFile data = .ok r := by
+  unfold parseWALFile
+  split
+  · exact ⟨_, rfl⟩
+  · obtain ⟨rs, hrs⟩ := pagesLoop_total data (data.length / 8192 + 1) 0
+    simp only [hrs, ok_bind]
+    exact ⟨_, rfl⟩
+
+theorem tallyFiles_total (dir : Dir) (t : Tally) (names : List String) : ∃ r, tallyFiles dir t names = .ok r := by
+  induction names generalizing t with
+  | nil => exact ⟨_, rfl⟩
+  | cons n ns ih =>
+    unfold tallyFiles tallyFile
+    obtain ⟨r, hr⟩ := parseWALFile_total (readFile dir n)
+    simp only [hr, ok_bind]
+    cases r with
+    | none => simp only [pure_eq_ok, ok_bind]; exact ih t
+    | some rs => simp only [pure_eq_ok, ok_bind]; exact ih _
+
+theorem scanWALDirectory_total (dir : Dir) : ∃ r, scanWALDirectory dir = .ok r := by
+  unfold scanWALDirectory
+  obtain ⟨t, ht⟩ := tallyFiles_total dir {} (walFiles dir)
+  simp only [ht, ok_bind]
+  exact ⟨_, rfl⟩
+
+theorem recentLoop_total (dir : Dir) (limit : Int) (names : List String) (acc : List Record) :
+    ∃ r, recentLoop dir limit names acc = .ok r := by
+  induction names generalizing acc with
+  | nil => exact ⟨_, rfl⟩
+  | cons n ns ih =>
+    unfold recentLoop
+    split
+    · obtain ⟨r, hr⟩ := parseWALFile_total (readFile dir n)
+      simp only [hr, ok_bind]
+      cases r with
+      | none => exact ih acc
+      | some rs => exact ih _
+    · exact ⟨_, rfl⟩
+
+theorem getRecent_total (dir : Dir) (limit : Int) (h : 0 ≤ limit) : ∃ r, getRecentWALRecords dir limit = .ok r := by
+  unfold getRecentWALRecords
+  obtain ⟨all, hall⟩ := recentLoop_total dir limit (walFiles dir).reverse []
+  simp only [hall, ok_bind]
+  split
+  · rw [if_neg (by omega)]; exact ⟨_, rfl⟩
+  · exact ⟨_, rfl⟩
+
 end PgVerif.Proofs.Wal
